@@ -84,6 +84,12 @@ class IdAllocator:
 _real_id = id
 
 
+# The harness's own waits ("until the server is idle", "until helper threads that end by themselves are gone") must lie far
+# outside every timer window used with timers='all' (<= 50 s): such a wait may only expire when nothing else can run, never as
+# a scheduling deviation in the middle of the gather thread's work (that produced a false 'ledger-not-empty', see DESIGN 0.5)
+HARNESS_WAIT = 400.0
+
+
 class SrvExec(Exec):
     def __init__(self, cfg):
         self.cfg = cfg
@@ -360,7 +366,7 @@ class SrvExec(Exec):
             info = dict(enter_exc=None, gather_alive=gather.is_alive(), backlog_at_enter=backlog_at_enter)
             if cfg.get('drain_before_exit', True):
                 # let the results of abandoned requests emerge: an idle server must have backlog 0
-                s.block(lambda: not self.waiting and len(server._uid_to_futures) == 0, 50.0, on='idle-wait')
+                s.block(lambda: not self.waiting and len(server._uid_to_futures) == 0, HARNESS_WAIT, on='idle-wait')
             info['backlog'] = len(server._uid_to_futures) if cfg.get('drain_before_exit', True) else 0
             server.__exit__(None, None, None)
             self.server = None
@@ -378,7 +384,7 @@ class SrvExec(Exec):
         # helper threads that end by themselves a moment later (e.g. the logger thread of a worker process, which ends
         # when the end of the child's log stream arrives) are not leaks: give them 5 virtual seconds
         s = sched.S()
-        s.block(lambda: not self.live(), 5.0, on='settle')
+        s.block(lambda: not self.live(), HARNESS_WAIT, on='settle')
 
     def live(self):
         s = sched.S()
